@@ -14,6 +14,7 @@ import (
 	"reflect"
 	"runtime"
 	"strings"
+	"sync"
 	"testing"
 
 	"verif/engine/enum"
@@ -162,6 +163,25 @@ func kinds(thorough bool) []kind {
 	es2 := &Shape{Kind: Struct, Fields: []Field{{Name: "A", S: u24}, {Name: "B", S: u16}}}
 	ks = append(ks, kind{s: &Shape{Kind: Vec, Elem: es2, Min: 0, Max: 300},
 		vals: []val{{v: list(), valid: true}, {v: list(list(uint64(0x010203), uint64(0x0405)), list(uint64(0x0a0b0c), uint64(0x0d0e))), valid: true}}})
+	// vector of structs with a select(): consecutive elements choosing the same arm, and arms
+	// holding vectors whose later elements are shorter than earlier ones
+	vs := &Shape{Kind: Struct, Fields: []Field{{Name: "S", S: &Shape{Kind: Enum, Size: 1}},
+		{Name: "A", S: u16, Selector: "S", Val: 1}, {Name: "B", S: &Shape{Kind: Bytes, Min: 0, Max: 255}, Selector: "S", Val: 2}}}
+	el := func(sel uint64, v any) any {
+		if sel == 1 {
+			return list(sel, v, nil)
+		}
+		return list(sel, nil, v)
+	}
+	ks = append(ks, kind{s: &Shape{Kind: Vec, Elem: vs, Min: 0, Max: 1000}, core: true,
+		vals: []val{{v: list(), valid: true}, {v: list(el(1, uint64(0x0102))), valid: true},
+			{v: list(el(1, uint64(0x0102)), el(1, uint64(0x0304))), valid: true},
+			{v: list(el(2, pat(5)), el(2, pat(2)), el(1, uint64(7)), el(2, []byte{})), valid: true},
+			{v: list(el(1, uint64(1)), el(2, pat(3)), el(1, uint64(2))), valid: true}}})
+	bs := &Shape{Kind: Struct, Fields: []Field{{Name: "V", S: &Shape{Kind: Bytes, Min: 0, Max: 65535}}}}
+	ks = append(ks, kind{s: &Shape{Kind: Vec, Elem: bs, Min: 0, Max: 1<<24 - 1},
+		vals: []val{{v: list(), valid: true}, {v: list(list(pat(300)), list(pat(20))), valid: true},
+			{v: list(list(pat(3)), list(pat(2)), list(pat(1)), list([]byte{})), valid: true}}})
 	ns := &Shape{Kind: Struct, Fields: []Field{{Name: "A", S: u16}, {Name: "B", S: &Shape{Kind: Bytes, Min: 0, Max: 255}}}}
 	ks = append(ks, kind{s: ns, core: true, vals: []val{{v: list(uint64(0x0102), []byte{}), valid: true}, {v: list(uint64(0xffff), pat(5)), valid: true}, {v: list(uint64(1), pat(256))}}})
 	ns2 := &Shape{Kind: Struct, Fields: []Field{{Name: "A", S: u24}}}
@@ -466,7 +486,29 @@ var shortStrings = func() [][]byte {
 }()
 
 type checker struct {
-	r *rep.R
+	r     *rep.R
+	dirty sync.Map // shape string -> []byte: a valid encoding with every variable-size part populated
+}
+
+// dirtyFor returns a fresh destination pre-populated with a "rich" value of the type
+// (the longest valid encoding seen for it), or nil if none is known yet.
+func (c *checker) dirtyFor(top *Shape, gt reflect.Type, params string) *reflect.Value {
+	v, ok := c.dirty.Load(top.String() + "|" + params)
+	if !ok {
+		return nil
+	}
+	ptr := reflect.New(gt)
+	if _, err := tls.UnmarshalWithParams(v.([]byte), ptr.Interface(), params); err != nil {
+		return nil
+	}
+	return &ptr
+}
+
+func (c *checker) noteRich(top *Shape, params string, enc []byte) {
+	k := top.String() + "|" + params
+	if old, ok := c.dirty.Load(k); !ok || len(old.([]byte)) < len(enc) && len(enc) < 4096 {
+		c.dirty.Store(k, append([]byte{}, enc...))
+	}
 }
 
 // sigFor builds a violation signature that names the failing direction and the
@@ -534,6 +576,22 @@ func (c *checker) decodeBoth(t *typ, gt reflect.Type, params string, top *Shape,
 			fmt.Sprintf("type %s input %s: library left %d bytes, reference %d", top, rep.Hex(data), len(rest), len(data)-rn), cd(rep.Hex(rest), rep.Hex(data[rn:])))
 		return
 	}
+	// decoding must not depend on what the destination held before: decode the same input
+	// into a destination pre-populated by decoding another valid encoding of the type
+	if dirty := c.dirtyFor(top, gt, params); dirty != nil {
+		var rest2 []byte
+		var err2 error
+		pan, msg, stack = enum.Catch(func() { rest2, err2 = tls.UnmarshalWithParams(data, dirty.Interface(), params) })
+		if pan {
+			c.r.Violation(sigFor("unmarshal-panic-on-reused-destination", top), msg+"\n"+stack, cd("panic: "+msg, ""))
+			return
+		}
+		if err2 != nil || !Equal(bind.FromGo(top, dirty.Elem()), rv) || len(rest2) != len(data)-rn {
+			c.r.Violation(sigFor("unmarshal-depends-on-destination-contents", top),
+				fmt.Sprintf("type %s input %s: decoding into a destination that already held another value gives %s (err=%v), into a fresh one %s", top, rep.Hex(data), Show(bind.FromGo(top, dirty.Elem())), err2, Show(rv)), cd(Show(bind.FromGo(top, dirty.Elem())), Show(rv)))
+			return
+		}
+	}
 	// re-encoding what was decoded must reproduce the consumed bytes
 	var re []byte
 	var merr error
@@ -585,6 +643,13 @@ func (c *checker) encodeBoth(gt reflect.Type, params string, top *Shape, v val) 
 func (c *checker) runType(t *typ) {
 	gt, _ := bind.GoType(t.s)
 	for _, v := range t.vals {
+		if v.valid {
+			if e, err := Encode(t.s, v.v); err == nil {
+				c.noteRich(t.s, "", e)
+			}
+		}
+	}
+	for _, v := range t.vals {
 		encd, ok := c.encodeBoth(gt, "", t.s, v)
 		if !ok {
 			continue
@@ -605,6 +670,13 @@ func (c *checker) runType(t *typ) {
 // runTop exercises one kind as a top-level value with parameters.
 func (c *checker) runTop(k kind) {
 	gt, params := bind.GoType(k.s)
+	for _, v := range k.vals {
+		if v.valid {
+			if e, err := Encode(k.s, v.v); err == nil {
+				c.noteRich(k.s, params, e)
+			}
+		}
+	}
 	for _, v := range k.vals {
 		encd, ok := c.encodeBoth(gt, params, k.s, v)
 		if !ok {
